@@ -118,19 +118,19 @@ package sample
 //@   modifies d.sampleRate, d.upperBound, d.Metrics, d.metricNames
 
 // ---- C28/C04: the dynsampler-backed samplers never panic and never report a rate below 1
-//@ contract sample.(*DynamicSampler).GetSampleRate props C28,C04 havoc
+//@ contract sample.(*DynamicSampler).GetSampleRate props C28,C04,C11 havoc
 //@   requires d != nil && trace != nil
 //@   ensures[rate-at-least-one] rate >= 1
-//@ contract sample.(*EMADynamicSampler).GetSampleRate props C28,C04 havoc
+//@ contract sample.(*EMADynamicSampler).GetSampleRate props C28,C04,C11 havoc
 //@   requires d != nil && trace != nil
 //@   ensures[rate-at-least-one] rate >= 1
-//@ contract sample.(*TotalThroughputSampler).GetSampleRate props C28,C04 havoc
+//@ contract sample.(*TotalThroughputSampler).GetSampleRate props C28,C04,C11 havoc
 //@   requires d != nil && trace != nil
 //@   ensures[rate-at-least-one] rate >= 1
-//@ contract sample.(*EMAThroughputSampler).GetSampleRate props C28,C04 havoc
+//@ contract sample.(*EMAThroughputSampler).GetSampleRate props C28,C04,C11 havoc
 //@   requires d != nil && trace != nil
 //@   ensures[rate-at-least-one] rate >= 1
-//@ contract sample.(*WindowedThroughputSampler).GetSampleRate props C28,C04 havoc
+//@ contract sample.(*WindowedThroughputSampler).GetSampleRate props C28,C04,C11 havoc
 //@   requires d != nil && trace != nil
 //@   ensures[rate-at-least-one] rate >= 1
 
@@ -139,3 +139,64 @@ package sample
 //@ lockdiscipline sample.SamplerFactory mutex props C35 skip: Start
 //@ guarded_by sample.dynsamplerMetricsRecorder.mu: lastMetrics
 //@ lockdiscipline sample.dynsamplerMetricsRecorder mu props C35 skip: RegisterMetrics
+
+// ---- C11: dynamic sample keys depend only on the trace's distinct field values.
+// The per-field table maps hash(string form of a value) -> that string. Collected values are a SET per field
+// (insertion order and duplicates do not matter), Values() lists a field's set in sorted order, and the key is
+// emitted from those sorted lists - so the key is a function of the sets.
+//@ spec strHash(s string) uint64 := wyhash.Hash([]byte(s), 0)
+// every stored string hashes to its slot (so the strings of one field are pairwise different)
+//@ spec slotsConsistent(m map[uint64]string) bool := forall h uint64 :: in(m, h) ==> strHash(at(m, h)) == h
+//@ assume types.(*Payload).Exists getter
+//@ assume types.(*Payload).Get getter
+
+//@ contract sample.(*distinctValue).AddAsString props C11
+//@   arith math
+//@   requires d != nil && 0 <= fieldIdx && fieldIdx < len(d.values)
+//@   requires[slots-consistent] forall i int :: 0 <= i && i < len(d.values) ==> slotsConsistent(d.values[i])
+// only string values have a modelled string form here (other types go through strconv / fmt)
+//@   domain[string-value] isString(value)
+//@   let s = anyString(value)
+//@   let h = strHash(s)
+//@   let isNew = !in(d.values[fieldIdx], h)
+//@   ensures[a-known-value-changes-nothing] !isNew ==> !result && d.values == old(d.values) && d.totalUniqueCount == old(d.totalUniqueCount)
+//@   ensures[a-new-value-is-counted] isNew ==> d.totalUniqueCount == old(d.totalUniqueCount) + 1
+//@   ensures[a-new-value-below-the-cap-joins-its-field-set] isNew && old(d.totalUniqueCount) + 1 < d.maxDistinctValue ==> result && d.values[fieldIdx] == mapset(old(d.values[fieldIdx]), h, s)
+//@   ensures[at-the-cap-nothing-is-stored] isNew && old(d.totalUniqueCount) + 1 >= d.maxDistinctValue ==> !result && d.values == old(d.values)
+//@   ensures[other-fields-untouched] len(d.values) == old(len(d.values)) && (forall i int :: 0 <= i && i < len(d.values) && i != fieldIdx ==> d.values[i] == old(d.values)[i])
+//@   ensures[slots-consistent] forall i int :: 0 <= i && i < len(d.values) ==> slotsConsistent(d.values[i])
+//@   modifies d.buf, d.values, d.totalUniqueCount
+
+//@ contract sample.(*distinctValue).Values props C11
+//@   arith math
+//@   requires d != nil
+//@   requires[slots-consistent] forall i int :: 0 <= i && i < len(d.values) ==> slotsConsistent(d.values[i])
+//@   let m = d.values[fieldIdx]
+//@   ensures[out-of-range-or-empty] (fieldIdx < 0 || fieldIdx >= len(d.values) || card(m) == 0) ==> len(result) == 0
+//@   ensures[as-many-as-the-set] 0 <= fieldIdx && fieldIdx < len(d.values) && card(m) > 0 ==> len(result) == card(m)
+//@   ensures[members-of-the-set] 0 <= fieldIdx && fieldIdx < len(d.values) ==> (forall j int :: 0 <= j && j < len(result) ==> in(m, strHash(result[j])))
+//@   ensures[sorted] forall a int, b int :: 0 <= a && a < b && b < len(result) ==> result[a] <= result[b]
+//@   ensures[table-untouched] d.values == old(d.values) && d.totalUniqueCount == old(d.totalUniqueCount)
+//@   loop 1 invariant[untouched] d.values == old(d.values) && d.totalUniqueCount == old(d.totalUniqueCount) && slotsConsistent(valueMap)
+//@   loop 1 invariant[one-per-iteration] len(d.valuesBuffer) == iter
+//@   loop 1 invariant[visited-are-keys] forall h uint64 :: seen(h) ==> in(valueMap, h)
+//@   loop 1 invariant[collected-were-visited] forall j int :: 0 <= j && j < len(d.valuesBuffer) ==> seen(strHash(d.valuesBuffer[j]))
+//@   modifies d.valuesBuffer
+
+//@ contract sample.(*distinctValue).Reset props C11
+//@   arith math
+//@   requires d != nil
+//@   ensures[one-empty-set-per-field] len(d.values) == len(fields) && (forall i int :: 0 <= i && i < len(d.values) ==> card(d.values[i]) == 0 && (forall h uint64 :: !in(d.values[i], h)))
+//@   ensures[counters-reset] d.totalUniqueCount == 0 && d.maxDistinctValue == maxDistinctValue && len(d.buf) == 0 && len(d.valuesBuffer) == 0
+//@   loop 1 invariant len(d.values) <= len(fields) || len(d.values) == old(len(d.values))
+//@   loop 2 invariant len(d.values) == len(fields) && (forall i int :: 0 <= i && i < iter ==> card(d.values[i]) == 0 && (forall h uint64 :: !in(d.values[i], h)))
+//@   modifies d.maxDistinctValue, d.values, d.totalUniqueCount, d.buf, d.valuesBuffer
+
+// One field's share of the key: every distinct value of the field is written once (followed by the value
+// delimiter) and counted once. Values() hands the field's set over as a strictly increasing list.
+//@ fragment sample.(*traceKey).build loop 3 body props C11 havocheap
+//@   arith math
+//@   requires d != nil && d.distinctValue != nil && d.keyBuilder != nil
+//@   requires[slots-consistent] forall q int :: 0 <= q && q < len(d.distinctValue.values) ==> slotsConsistent(d.distinctValue.values[q])
+//@   ensures[each-distinct-value-is-counted] (forall a int, b int :: 0 <= a && a < b && b < len(values) ==> values[a] < values[b]) ==> fieldCount == old(fieldCount) + len(values)
+//@   loop 1 invariant[counted-so-far] (forall a int, b int :: 0 <= a && a < b && b < len(values) ==> values[a] < values[b]) ==> fieldCount == old(fieldCount) + iter && (iter > 0 ==> prevStr == values[iter - 1])
